@@ -211,6 +211,8 @@ func setupDirs(w *simrt.World) {
 	}
 }
 
+const baseConfigPath = "/sim/base/config.yaml"
+
 func dagPath(spec *DagSpec) string { return path.Join(dagsDir, spec.File+".yaml") }
 
 func seedIDs(tp *simrt.Tape) {
@@ -245,7 +247,11 @@ func spawnAgent(w *simrt.World, spec *DagSpec, params string, dry bool, extraEnv
 	ar := &agentRun{spec: spec, dry: dry}
 	env := baseEnv(append(spec.CondEnv(), extraEnv...))
 	ar.proc = w.Spawn(simrt.CurProc(), "agent", []string{"blackdagger", "start", dagPath(spec)}, env, workDir, true, func(p *simrt.Proc) int {
-		wf, err := dag.Load("", dagPath(spec), params)
+		base := ""
+		if spec.BaseLimit {
+			base = baseConfigPath
+		}
+		wf, err := dag.Load(base, dagPath(spec), params)
 		if err != nil {
 			ar.loadErr = err
 			return 3
@@ -366,6 +372,7 @@ type stepScenario struct {
 	StopAtMs int      `json:"stopAtMs,omitempty"` // alternatively: the stop is issued at this fake time (lands inside sleeps: launch delay, retry and repeat intervals, the 100 ms pause)
 	StopVia string    `json:"stopVia,omitempty"`
 	SlowHistory bool  `json:"slowHistory,omitempty"`
+	BaseCfgFault bool `json:"baseCfgFault,omitempty"`
 	IOFault *ioFaultCfg `json:"ioFault,omitempty"`
 	YAML    string    `json:"yaml,omitempty"`
 }
@@ -483,6 +490,12 @@ func stepsim(t *testing.T, tp *simrt.Tape, opts RunOpts) *Outcome {
 			sc.StopAtMs = pick(tp, 200, 700, 1001, 1300, 1900, 2400, 3100, 4500)
 		}
 	}
+	if sc.Variant == "sched" && sc.Dag.MaxActiveRuns > 0 && chance(tp, 1, 4) {
+		// the limit is declared for the whole installation (base configuration); in half of these runs that
+		// file cannot be read when the run starts: the run must then be refused, not run without a limit
+		sc.Dag.BaseLimit = true
+		sc.BaseCfgFault = chance(tp, 1, 2)
+	}
 	if sc.Variant == "iofault" {
 		// a third of the steps carry a script (written to a temporary file before each attempt); retries wait
 		// long enough for the polling loop to come round while a step waits for its next attempt
@@ -575,6 +588,19 @@ func stepsim(t *testing.T, tp *simrt.Tape, opts RunOpts) *Outcome {
 			}
 		}
 	}
+	if sc.BaseCfgFault {
+		prev := cfg.FaultPlan
+		cfg.FaultPlan = func(op *simrt.OpInfo) simrt.Fault {
+			if op.Path == baseConfigPath && (op.Kind == "open" || op.Kind == "read") {
+				op.Proc.W.CountFault("base_config_unreadable")
+				return simrt.Fault{Kind: simrt.FErr, Errno: syscall.EIO}
+			}
+			if prev != nil {
+				return prev(op)
+			}
+			return simrt.Fault{}
+		}
+	}
 	var ioTouched map[string]bool
 	if sc.IOFault != nil {
 		cfg.FaultPlan, ioTouched = ioFaultPlan(tp, sc.IOFault, func() int {
@@ -591,6 +617,10 @@ func stepsim(t *testing.T, tp *simrt.Tape, opts RunOpts) *Outcome {
 		simexec.Register(w, "/sim/bin/simstep", truth.StepProgram)
 		curTruth = truth
 		fsOf(w).PutFile(dagPath(sc.Dag), []byte(sc.YAML), 0o644)
+		if sc.Dag.BaseLimit {
+			fsOf(w).MkdirAllDirect("/sim/base")
+			fsOf(w).PutFile(baseConfigPath, []byte(fmt.Sprintf("maxActiveRuns: %d\n", sc.Dag.MaxActiveRuns)), 0o644)
+		}
 		if sc.Variant == "dry" {
 			mutBefore = fsOf(w).Dump(dataDir)
 		}
@@ -789,6 +819,10 @@ func (c *stepCheck) check() {
 		return
 	}
 	if c.ar == nil || !c.ar.started {
+		if c.ar != nil && c.ar.loadErr != nil && c.sc.BaseCfgFault {
+			bump(c.out, "run_refused_unreadable_base_config")
+			return
+		}
 		if c.ar != nil && c.ar.loadErr != nil {
 			c.out.Infra = "generated DAG rejected by loader: " + c.ar.loadErr.Error()
 		}
